@@ -50,7 +50,7 @@ ASSUMPTIONS = ['documented validity rules followed (codebuilder.py comments): co
                'grammar identifiers are limited to rec/$A/$G/$id, literals, builtins and locally imported names so the exec '
                'environment (builtins only) matches the formula environment; LAZY functions (IF, ISERR, PEEK) are not generated']
 BUDGET = {'quick': dict(examples=900, shards=8, max_seconds=45),
-          'thorough': dict(examples=20000, shards=16, max_seconds=560)}
+          'thorough': dict(examples=11000, shards=16, max_seconds=1800)}
 SHRINK_BUDGET = {'quick': 150, 'thorough': 500}
 
 GOOD = '$A + 1000'
